@@ -32,6 +32,7 @@ import shlex
 import subprocess
 import sys
 import tempfile
+import time
 
 sys.path.insert(0, os.path.join(os.path.dirname(os.path.abspath(__file__)), '..', 'py2lean'))
 import regex_ser  # noqa: E402
@@ -512,20 +513,66 @@ def with_warnings_off(f):
         return f()
 
 
-def run_driver(cmd, cwd, lines):
-    with tempfile.NamedTemporaryFile('w', suffix='.req', delete=False, encoding='utf-8') as f:
-        f.write('\n'.join(lines) + '\n')
-        name = f.name
+class Driver:
+    """lock-step conversation with the driver process (one request line, one response line), with a
+    per-request timeout so that a blow-up of the eager model engine is reported, not waited for"""
+
+    def __init__(self, cmd, cwd, timeout):
+        self.cmd, self.cwd, self.timeout = cmd, cwd, timeout
+        self.proc = None
+        self.buf = b''
+
+    def start(self):
+        self.proc = subprocess.Popen(self.cmd, cwd=self.cwd, stdin=subprocess.PIPE, stdout=subprocess.PIPE,
+                                     stderr=subprocess.DEVNULL, bufsize=0)
+        self.buf = b''
+
+    def stop(self):
+        if self.proc is not None:
+            try:
+                self.proc.kill()
+                self.proc.wait()
+            except Exception:
+                pass
+            self.proc = None
+
+    def ask(self, line):
+        import select
+        if self.proc is None:
+            self.start()
+        try:
+            self.proc.stdin.write(line.encode('utf-8') + b'\n')
+            self.proc.stdin.flush()
+        except BrokenPipeError:
+            self.stop()
+            return '<driver died>'
+        deadline = time.time() + self.timeout
+        while b'\n' not in self.buf:
+            left = deadline - time.time()
+            if left <= 0:
+                self.stop()
+                return '<timeout>'
+            ready, _, _ = select.select([self.proc.stdout], [], [], left)
+            if not ready:
+                continue
+            chunk = os.read(self.proc.stdout.fileno(), 1 << 16)
+            if not chunk:
+                self.stop()
+                return '<driver died>'
+            self.buf += chunk
+        resp, _, self.buf = self.buf.partition(b'\n')
+        return resp.decode('utf-8')
+
+
+def run_driver(cmd, cwd, lines, timeout):
+    d = Driver(cmd, cwd, timeout)
+    out = []
     try:
-        with open(name, encoding='utf-8') as inp:
-            res = subprocess.run(cmd, cwd=cwd, stdin=inp, stdout=subprocess.PIPE, stderr=subprocess.PIPE,
-                                 text=True, encoding='utf-8')
+        for ln in lines:
+            out.append(d.ask(ln))
     finally:
-        os.unlink(name)
-    if res.returncode != 0:
-        sys.stderr.write(res.stderr[-4000:])
-        raise SystemExit('driver failed with exit code %d' % res.returncode)
-    return res.stdout.split('\n')
+        d.stop()
+    return out
 
 
 def main():
@@ -534,6 +581,7 @@ def main():
     ap.add_argument('--driver', default=None, help='command of a driver (default: lake env lean --run Driver/RegexMain.lean)')
     ap.add_argument('--n', type=int, default=20000, help='approximate number of evaluations')
     ap.add_argument('--show', type=int, default=10, help='number of disagreements to print')
+    ap.add_argument('--timeout', type=float, default=30.0, help='seconds per request')
     ap.add_argument('--list-patterns', action='store_true')
     a = ap.parse_args()
     seed = int(os.environ.get('VERIF_SEED', '1'))
@@ -552,7 +600,7 @@ def main():
         lines.append(request_line(target, cache[key], args))
         expected.append(with_warnings_off(lambda: py_eval(target, pat, flags, args)))
     cmd = shlex.split(a.driver) if a.driver else ['lake', 'env', 'lean', '--run', 'Driver/RegexMain.lean']
-    out = run_driver(cmd, a.lean_dir, lines)
+    out = run_driver(cmd, a.lean_dir, lines, a.timeout)
     dist = {}
     agree = 0
     disagreements = []
